@@ -1207,7 +1207,7 @@ struct AddRing : public Conversion {
     Writer p;
 
     uint64_t size     = graph.size();
-    uint64_t newEdges = AddLine ? size - 1 : size;
+    uint64_t newEdges = AddLine ? (size ? size - 1 : 0) : size;
     p.setNumNodes(size);
     p.setNumEdges<EdgeTy>(graph.sizeEdges() + newEdges);
 
